@@ -53,6 +53,69 @@ Definition run_sighash (txb : bytes) (idx f : N) (subb : bytes) (v : N) : string
   | _, _ => out3 "ERR" "-" "-"
   end.
 
+(* tx.sighash_ann: annotations "k,sat|-,lock|-/..." are applied to the parsed value (extended-format fields of TxIn);
+   the routes clone / JSON / CBOR / construction API keep them, the hex route drops them; neither the library's
+   computation nor the specification may look at them.  Second field: Transaction::sign signs that buffer. *)
+Definition ann_in (i : txin) (sat : option N) (lock : option (list bit)) : txin :=
+  mk_txin (prev_tx_id i) (vout i) (unlocking i) (sequence i)
+          (match lock with Some l => Some l | None => locking i end)
+          (match sat with Some v => Some v | None => satoshis i end).
+Definition strip_in (i : txin) : txin := mk_txin (prev_tx_id i) (vout i) (unlocking i) (sequence i) None None.
+
+(* Some (Ok ..) parsed; Some Err: an annotation script the library refuses; None: malformed / index without input *)
+Fixpoint apply_anns (l : list string) (t : tx) : option (outcome tx) :=
+  match l with
+  | [] => Some (Ok t)
+  | e :: r =>
+      match split "," e with
+      | [k; sat; lock] =>
+          match N_of_dec k with
+          | Some kn =>
+              let sat' := if String.eqb sat "-" then Some None else option_map Some (N_of_dec sat) in
+              let lock' := if String.eqb lock "-" then Some None else option_map Some (expand lock) in
+              match sat', lock' with
+              | Some so, Some lo =>
+                  if (kn <? N.of_nat (length (inputs t)))%N then
+                    match nth_error (inputs t) (N.to_nat kn) with
+                    | Some i =>
+                        match (match lo with None => Ok None | Some lb => omap Some (from_bytes lb) end) with
+                        | Ok ls => apply_anns r (mk_tx (version t) (set_nth (N.to_nat kn) (ann_in i so ls) (inputs t)) (outputs t) (locktime t))
+                        | Err => Some Err
+                        | Panic => Some Panic
+                        end
+                    | None => None
+                    end
+                  else None
+              | _, _ => None
+              end
+          | None => None
+          end
+      | _ => None
+      end
+  end.
+
+Definition run_sighash_ann (txb : bytes) (idx f : N) (subb : bytes) (v : N) (ann route : string) : string :=
+  match tx_from_bytes txb, from_bytes subb with
+  | Ok t0, Ok sub =>
+      match apply_anns (if String.eqb ann "-" then [] else split "/" ann) t0 with
+      | None => "BADARG"
+      | Some (Ok t1) =>
+          let t := if String.eqb route "h" then mk_tx (version t1) (map strip_in (inputs t1)) (outputs t1) (locktime t1) else t1 in
+          let i := clamp_idx t idx in
+          let impl := match sighash_preimage H_impl t i f sub v with
+                      | Ok p => "OK:" +++ show_bytes p +++ ";1" | Err => "ERR" | Panic => "PANIC" end in
+          let spec0 := spec_sighash t i f subb v in
+          let spec := if String.eqb spec0 "-" then "-" else if String.eqb spec0 "ERR" then "ERR"
+                      else join "~" (map (fun a => if String.eqb a "ERR" then a else a +++ ";1") (split "~" spec0)) in
+          out3 impl spec "-"
+      | Some Err => out3 "ERR" "-" "-"
+      | Some Panic => out3 "PANIC" "-" "-"
+      end
+  | Panic, _ | _, Panic => out3 "PANIC" "-" "-"
+  | _, _ => match apply_anns (if String.eqb ann "-" then [] else split "/" ann) (mk_tx 0 [] [] 0) with
+            | _ => out3 "ERR" "-" "-" end
+  end.
+
 Definition run_rm_codesep (subb : bytes) : string :=
   let impl := match from_bytes subb with
               | Ok s => "OK:" +++ show_bytes (to_bytes (remove_codeseparators s))
@@ -98,6 +161,13 @@ Definition run (op : string) (args : list string) : string :=
       match expand txd, N_of_dec idx, N_of_dec fl, expand subd, N_of_dec vd with
       | Some txb, Some i, Some f, Some subb, Some v =>
           if is_sighash f then run_sighash txb i f subb v else "BADARG"
+      | _, _, _, _, _ => "BADARG"
+      end
+  | "tx.sighash_ann", [txd; idx; fl; subd; vd; ann; route] =>
+      match expand txd, N_of_dec idx, N_of_dec fl, expand subd, N_of_dec vd with
+      | Some txb, Some i, Some f, Some subb, Some v =>
+          if is_sighash f && existsb (String.eqb route) ["d"; "c"; "j"; "b"; "a"; "h"]
+          then run_sighash_ann txb i f subb v ann route else "BADARG"
       | _, _, _, _, _ => "BADARG"
       end
   | "script.rm_codesep", [a] => match expand a with Some bs => run_rm_codesep bs | None => "BADARG" end
